@@ -16,7 +16,8 @@ RULE = ("A dataset of n sorted entries on a genome of 1..4 chromosomes and a set
         "(explicit edges, or bin count with explicit range), count_kmers, groupby on the sorted chromosome key (as an identifier column and as a text-typed ragged column, where keys such as chr1/chr10 are prefixes of each other), chunk_entries(stream, m), and "
         "per-chromosome pipelines built from the stream with Genome.get_intervals and evaluated with bnp.compute: pileup records, mask sum, "
         "pileup histogram, pileup sum, the column mean of the pileup under equal-length windows, and the same reductions evaluated together by one "
-        "bnp.compute call on a tuple or dict of nodes (every subset of mean, sum, histogram). Oracle: the same computation on the "
+        "bnp.compute call on a tuple or dict of nodes (every subset of mean, sum, histogram); and the element-wise @streamable functions "
+        "get_strand_specific_sequences and get_sequences applied to a stream of stranded intervals. Oracle: the same computation on the "
         "concatenated table through the in-memory path and an independent Python computation; floats within 1e-9 relative; values compared "
         "after flattening. Re-chunking: concatenated output == input in order and every chunk except the last has exactly m entries. "
         "Non-trivial: a chunking with a cut strictly inside a chromosome group, or a single-entry chunk, or a short last chunk.")
@@ -26,12 +27,12 @@ ASSUMPTIONS = [
     "Entries of one chromosome are contiguous and chromosomes appear in genome order (the streaming precondition; C12 covers its violation).",
 ]
 REQUIRED_CLASSES = ["cut-inside-group", "single-entry-chunk", "short-last-chunk", "one-chunk", "empty-chromosome", "trailing-empty-chromosome",
-                    "mean", "bincount", "histogram", "count_kmers", "groupby", "groupby-str", "chunk_entries", "pileup", "mask-sum", "pileup-histogram", "window-mean", "joint"]
+                    "mean", "bincount", "histogram", "count_kmers", "groupby", "groupby-str", "chunk_entries", "pileup", "mask-sum", "pileup-histogram", "window-mean", "joint", "streamable-map"]
 BOUNDS = {"quick": "all 128 chunkings of n = 8 entries x 12 computations x 10 datasets; 1000 sampled", "thorough": "all chunkings for n = 10 on 12 datasets; 5000 sampled (n up to 200)"}
 BUDGET_S = {"quick": 200, "thorough": 1500}
 
 COMPS = ["mean", "bincount", "histogram", "histogram-range", "count_kmers", "groupby", "groupby-str", "chunk_entries", "pileup", "mask-sum", "pileup-histogram",
-         "pileup-sum", "window-mean", "joint"]
+         "pileup-sum", "window-mean", "joint", "streamable-map"]
 
 
 def _where(e):
@@ -127,6 +128,25 @@ def check(case, stats=None):
             mem = [(name, list(zip(g.start.tolist(), g.stop.tolist()))) for name, g in bnp.groupby(table, "chromosome")]
             if got != want or mem != want:
                 return [Failure("C11:groupby", {"streamed": got, "expected": want, "in_memory": mem})]
+        elif comp == "streamable-map":
+            # element-wise @streamable functions applied to a stream: the concatenated per-chunk outputs must equal the in-memory call
+            from bionumpy.datatypes import StrandedInterval
+            L = max(b for _, _, b in ents)
+            ref_text = "".join("ACGT"[(i * 5 + i // 3) % 4] for i in range(L + 2))
+            ref = bnp.as_encoded_array(ref_text, bnp.DNAEncoding)
+            strands = ["+-"[((a * 7 + b * 3 + i) // 2 + case.get("strand_salt", 0)) % 2] for i, (c, a, b) in enumerate(ents)]
+            st_tab = StrandedInterval([names[c] for c, a, b in ents], np.array([a for c, a, b in ents], dtype=int),
+                                      np.array([b for c, a, b in ents], dtype=int), "".join(strands))
+            comp_map = {"A": "T", "C": "G", "G": "C", "T": "A"}
+            want = [ref_text[a:b] if z == "+" else "".join(comp_map[ch] for ch in reversed(ref_text[a:b])) for (c, a, b), z in zip(ents, strands)]
+            for fn_name, fn, expected in (("get_strand_specific_sequences", bnp.sequence.get_strand_specific_sequences, want),
+                                          ("get_sequences", bnp.sequence.get_sequences, [ref_text[a:b] for c, a, b in ents])):
+                streamed = fn(ref, NpDataclassStream(iter(chunks_of(st_tab, case["cuts"])), dataclass=StrandedInterval))
+                got = [row for chunk in streamed for row in chunk.tolist()]
+                mem = fn(ref, st_tab).tolist()
+                if got != expected or mem != expected:
+                    return [Failure(f"C11:streamable:{fn_name}", {"streamed": got[:12], "in_memory": mem[:12], "expected": expected[:12], "strands": "".join(strands)[:40],
+                                                               "cuts": case["cuts"][:10]})]
         elif comp == "groupby-str":
             # the same group-by on a text-typed (ragged) key column; chunks are built fresh from lists, as a file reader hands them out
             from bionumpy.bnpdataclass import bnpdataclass
@@ -277,6 +297,8 @@ def make_case(genome, ents, cuts, comp, salt):
         case["m"] = 1 + salt % 4
     if comp == "window-mean":
         case["w"] = 1 + salt % 3
+    if comp == "streamable-map":
+        case["strand_salt"] = salt
     if comp == "joint":
         case["w"] = 1 + salt % 3
         case["edges"] = [0, 1, 2, 3, 5, 20]
